@@ -512,6 +512,57 @@ func directedCases(rsize uint8) []caseT {
 	return cs
 }
 
+// wideCases: machines with 8 registers — every (destination, source) pair of every two-register
+// opcode and every register of every one-register opcode, so that a slip in one case arm of one
+// template (only r5, only r6 as source) is executed.
+func wideCases(rsize uint8) []caseT {
+	var cs []caseT
+	val := func(i int) uint64 { return (uint64(i)*0x9e3779b97f4a7c15 + 0x55) & mask(rsize) }
+	for _, op := range claimedPool(rsize) {
+		sig, _ := gen.Sig(op)
+		allReg := len(sig) > 0
+		for _, f := range sig {
+			if f.K != gen.KReg {
+				allReg = false
+			}
+		}
+		if !allReg || len(sig) > 2 {
+			continue
+		}
+		if isFloatOp(op) {
+			val = func(i int) uint64 {
+				if rsize == 16 {
+					return []uint64{0x3c00, 0xc100, 0x2e66, 0x4500, 0x3555, 0xb800, 0x4248, 0x1400}[i%8]
+				}
+				return []uint64{0x3f800000, 0xc0200000, 0x3dcccccd, 0x40a00000, 0x3eaaaaab, 0xbf000000, 0x40490fdb, 0x33800000}[i%8]
+			}
+		}
+		// one program per destination register: load all 8 registers, then apply op with every source
+		for d := 0; d < 8; d++ {
+			c := caseT{Kind: "wide:" + op, Rsize: rsize, R: 3, Ops: []string{op, "rset", "j"}}
+			for r := 0; r < 8; r++ {
+				c.Prog = append(c.Prog, fmt.Sprintf("rset r%d %d", r, val(r+d)|1))
+			}
+			if len(sig) == 1 {
+				if d > 0 {
+					continue
+				}
+				for r := 0; r < 8; r++ {
+					c.Prog = append(c.Prog, fmt.Sprintf("%s r%d", op, r))
+				}
+			} else {
+				for src := 0; src < 8; src++ {
+					c.Prog = append(c.Prog, fmt.Sprintf("%s r%d r%d", op, d, src))
+				}
+			}
+			c.Prog = append(c.Prog, fmt.Sprintf("j %d", len(c.Prog)))
+			c.O = uint8(procbuilder.Needed_bits(len(c.Prog)))
+			cs = append(cs, c)
+		}
+	}
+	return cs
+}
+
 // protocol corner cases: small fixed programs, judged without shrinking
 func cornerCases(rsize uint8) []caseT {
 	mk := func(name string, n, m uint8, stream bool, prog ...string) caseT {
@@ -585,7 +636,7 @@ func main() {
 	asmw.ServeIfWorker()
 	tier, replay := hx.Args()
 	run := evid.New("C01", tier, "translation_validation")
-	run.Rule = "cases = (architecture, program, environment): directed sweeps (every two-register opcode of the claimed cells × destination/source register pairs × boundary operand values, R=1,2) and seeded random programs over random opcode subsets of the claimed cells (Rsize 8/16/32/64, R 1..3, N,M 0..5, a port sweep over every input/output index for N 0..5 x M 1..5, WordSize automatic or +3, handshaked and constant inputs, output ack delays); non-trivial = both back ends retired ≥5 instructions and a register changed, distinct by the case text"
+	run.Rule = "cases = (architecture, program, environment): 8-register sweeps (every destination x source pair of every two-register opcode, every register of every one-register opcode), directed sweeps (every two-register opcode of the claimed cells × destination/source register pairs × boundary operand values, R=1,2) and seeded random programs over random opcode subsets of the claimed cells (Rsize 8/16/32/64, R 1..3, N,M 0..5, a port sweep over every input/output index for N 0..5 x M 1..5, WordSize automatic or +3, handshaked and constant inputs, output ack delays); non-trivial = both back ends retired ≥5 instructions and a register changed, distinct by the case text"
 	run.Assume = []string{"vsim executes the generated Verilog (2-state; '#1' intra-assignment delays ignored, exact for clock periods longer than the delay)",
 		"co-implementation table internal/gen/coimpl.go decides which (opcode, Rsize) cells are compared; excluded cells are listed in the evidence",
 		"execution mode ha, Threaded = 0 (the simulator has neither RAM-resident code nor a context switch)",
@@ -718,6 +769,20 @@ func main() {
 	}
 	for _, rs := range sizes {
 		cs = append(cs, portCases(rs)...)
+	}
+	for _, rs := range []uint8{8, 16, 32, 64} {
+		w := wideCases(rs)
+		if tier != "thorough" {
+			// quick: 8/32 bit in full; of the other two sizes the opcodes that exist only there (16 bit floats)
+			var w2 []caseT
+			for _, c := range w {
+				if rs == 8 || rs == 32 || (rs == 16 && strings.HasSuffix(strings.TrimPrefix(c.Kind, "wide:"), "f16")) {
+					w2 = append(w2, c)
+				}
+			}
+			w = w2
+		}
+		cs = append(cs, w...)
 	}
 	nDirected := len(cs)
 	rng := hx.RNG(run.Seed, "c01")
